@@ -93,7 +93,9 @@ fn parse_header(header: &str) -> Result<Header, ParseError> {
         .filter(|s| !s.is_empty())
         .ok_or(ParseError::MissingNewLine)?;
 
-    if newline != NEWLINE {
+    // The last part must be the '\n' that directly follows the '\r' which ended the last field:
+    // a '\n' that follows a space is not a line break.
+    if newline != NEWLINE || !header.ends_with(PROTOCOL_SUFFIX) {
         return Err(ParseError::InvalidSuffix);
     }
 
